@@ -22,6 +22,12 @@ def keyboard_interrupt_on_sigterm(signum, frame):
     raise KeyboardInterrupt()
 
 
+def setup_signal_handling():
+    """Make SIGTERM end the program like Ctrl-C, with a KeyboardInterrupt in the
+       main thread. Only has an effect when called from the main thread."""
+    _setup_signal_handling_if_needed()
+
+
 def _setup_signal_handling_if_needed():
     if current_thread() is not main_thread():
         return
